@@ -469,6 +469,8 @@ def _or_default(e, c, a):
 def _and_modify(e, c, a):
     if a[0].ent is not None: e.call_value(a[1], [Ref(a[0].ent[1], 0)])
     return a[0]
+@model('HashSet::reserve', 'HashMap::reserve', 'HashSet::shrink_to_fit', 'HashMap::shrink_to_fit', 'BTreeSet::reserve', 'HashSet::shrink_to', 'HashMap::shrink_to')
+def _set_reserve(e, c, a): return UNIT
 @model('HashSet::remove')
 def _set_remove(e, c, a):
     s = unguard(a[0]); k = deref(a[1])
